@@ -476,9 +476,9 @@ pub fn run(ctx: &Ctx, col: &Collector) -> Meta {
     // (c) random longer strings over a wider alphabet
     let wide: Vec<char> = ALPHABET.iter().copied().chain(['日', '😀', '\t', 'D', '1']).collect();
     let strat = || proptest::collection::vec(proptest::sample::select(wide.clone()), 0..40).prop_map(|v| v.into_iter().collect::<String>());
-    run_cases(&ctx.run_cfg(ctx.n(200_000, 3_000_000), 1), "string", strat, col, |s, col| check_string(s, col));
+    run_cases(&ctx.run_cfg(ctx.n(600_000, 3_000_000), 1), "string", strat, col, |s, col| check_string(s, col));
     // (b) formulas
-    run_cases(&ctx.run_cfg(ctx.n(30_000, 600_000), 2), "formula", formula_strategy, col, check_formula);
+    run_cases(&ctx.run_cfg(ctx.n(100_000, 600_000), 2), "formula", formula_strategy, col, check_formula);
 
     for cls in ["formula:or-under-and", "formula:multibyte", "string:in-reference-grammar", "string:multibyte-adjacent-to-metachar"] {
         if col.class_count(cls) == 0 && !col.stopped() {
